@@ -3,6 +3,7 @@
 //! seams and process model as `lmsim`.
 
 mod py;
+mod pyscan;
 mod pystream;
 mod pyview;
 
@@ -13,6 +14,7 @@ fn sim_of(prop: &str) -> &'static str {
     match prop {
         "C18" => "pyview",
         "C14" | "C15" => "pystream",
+        "C02" => "pyscan",
         _ => {
             eprintln!("HARNESS: no Python-tier simulator serves property {}", prop);
             std::process::exit(2);
@@ -29,6 +31,10 @@ macro_rules! with_sim {
             }
             "pystream" => {
                 type $s = pystream::PyStreamSim;
+                $body
+            }
+            "pyscan" => {
+                type $s = pyscan::PyScanSim;
                 $body
             }
             other => {
